@@ -28,7 +28,29 @@ def famIdx (kv : KV) : String × String :=
   let roots := parseRoots (KV.getD kv "roots" "nil")
   let blocks := parseBlocks (KV.getD kv "blocks" "-")
   -- M: the model of LoadIndex + Load + GetAll/ForEach
+  let rog := KV.getD kv "kind" "seek" == "rog"
+  -- ReadOrGenerateIndex on a CARv2 that carries an index: the embedded index, read back
+  let embedded : Option (Except Err Index) :=
+    if rog && src.take 11 == pragma then
+      match readV2Header ((src.drop 11).take 40) with
+      | .ok (h, _) =>
+        if h.hasIndex then
+          some (match Index.read (src.drop h.indexOffset) with
+            | .ok (ix, _) => .ok ix
+            | .error _ => .error .other)
+        else none
+      | .error _ => none
+    else none
   let m :=
+    match embedded with
+    | some (.error e) => s!"open={errName e}"
+    | some (.ok ix) =>
+      let gets := String.intercalate "," (qs.map fun q => natsStr (ix.getAll q))
+      let each := match ix with
+        | .sorted _ => "na"
+        | .mh mi => entriesStr mi.entries
+      s!"open=ok get={if qs.isEmpty then "-" else gets} each={each}"
+    | none =>
     match loadIndexRecords kind o src with
     | .error e => s!"open={errName e}"
     | .ok rs =>
